@@ -4,6 +4,13 @@
 // Compiled only with -tags verif; adds no behaviour.
 package context
 
+import "github.com/coreruleset/crs-toolchain/v2/utils"
+
+var _ = utils.SpecRootLike
+
+func implies(a, b bool) bool { return !a || b }
+
+
 // trivial getters are executed in place by the generator
 //@ contract Context.Configuration
 //@   tags C04
@@ -16,3 +23,41 @@ package context
 //@ contract Context.ExcludesDir
 //@   tags C05
 //@   opt inline yes
+
+// ---- the directory layout below the CRS root (C05 lookup directories, C15 write targets, C04
+// configuration file location): fixed names appended to the root, nothing probed on disk.
+// The root every command hands in is an absolute, cleaned path (os.Getwd, or filepath.Abs
+// followed by the upward search of findRootDirectory); for such a root appending "/name" and
+// filepath.Join give the same text, so the clauses hold for either spelling of the code (each
+// clause names the same string twice, once as one literal and once name by name: concatenation
+// is associative, the second spelling only spares the solver that proof).
+
+//@ extern filepath.Join/3
+//@   params a b c
+//@   results r
+//@   rtc tokens "/" "a" "b-" "." ".."
+//@   ensures implies(utils.SpecRootLike(a) && utils.SpecWord(b) && utils.SpecWord(c), r == a+"/"+b+"/"+c && utils.SpecRootLike(r))
+
+//@ extern filepath.Join/4
+//@   params a b c d
+//@   results r
+//@   rtc tokens "/" "a" "b-" "."
+//@   ensures implies(utils.SpecRootLike(a) && utils.SpecWord(b) && utils.SpecWord(c) && utils.SpecWord(d), r == a+"/"+b+"/"+c+"/"+d && utils.SpecRootLike(r))
+
+//@ contract NewWithConfiguration
+//@   tags C04 C05 C13 C15
+//@   results r
+//@   ensures[C15] root-is-kept: r.rootDirectory == rootDir
+//@   ensures[C15] rules-directory: implies(utils.SpecRootLike(rootDir), (r.rulesDirectory == rootDir+"/rules" || r.rulesDirectory == rootDir+"/"+"rules"))
+//@   ensures[C05,C15] assembly-directory: implies(utils.SpecRootLike(rootDir), (r.assemblyFilesDirectory == rootDir+"/regex-assembly" || r.assemblyFilesDirectory == rootDir+"/"+"regex-assembly"))
+//@   ensures[C05] include-directory: implies(utils.SpecRootLike(rootDir), (r.includeFilesDirectory == rootDir+"/regex-assembly/include" || r.includeFilesDirectory == rootDir+"/"+"regex-assembly"+"/"+"include"))
+//@   ensures[C05] exclude-directory: implies(utils.SpecRootLike(rootDir), (r.excludeFilesDirectory == rootDir+"/regex-assembly/exclude" || r.excludeFilesDirectory == rootDir+"/"+"regex-assembly"+"/"+"exclude"))
+//@   ensures[C13,C15] regression-tests-directory: implies(utils.SpecRootLike(rootDir), (r.regressionTestFilesDirectory == rootDir+"/tests/regression/tests" || r.regressionTestFilesDirectory == rootDir+"/"+"tests"+"/"+"regression"+"/"+"tests"))
+//@   ensures[C04] configuration-is-kept: r.configuration == configuration
+
+// New: the configuration is read from <root>/regex-assembly/<name> - once - and handed on as it is
+//@ contract New
+//@   tags C04
+//@   results r
+//@   checks[C04] configuration-read-from-the-assembly-directory: called(New) && implies(utils.SpecRootLike(rootDir), (argOf(New, 0) == rootDir+"/regex-assembly" || argOf(New, 0) == rootDir+"/"+"regex-assembly")) && argOf(New, 1) == configurationFileName
+//@   checks[C04] that-configuration-is-used: called(NewWithConfiguration) && argOf(NewWithConfiguration, 0) == rootDir && argOf(NewWithConfiguration, 1) == resultOf(New, 0)
